@@ -43,6 +43,27 @@ MUT = {
  "c03-rejected-write-notifies": ("C03", "spine/feature_local.go",
     "func (r *FeatureLocal) processWrite(msg *api.Message) {\n	if err := r.executeWrite(msg); err != nil {",
     "func (r *FeatureLocal) processWrite(msg *api.Message) {\n	if err := r.executeWrite(msg); err != nil {\n		if cd, e := msg.Cmd.Data(); e == nil {\n			if fd := r.functionData(*cd.Function); fd != nil {\n				r.Device().NotifySubscribers(r.Address(), fd.NotifyOrWriteCmdType(nil, nil, false, nil))\n			}\n		}"),
+ "n-answer-invents-reference": ("C01", "spine/send.go",
+    "	addressSource := *requestHeader.AddressDestination\n	addressSource.Device = senderAddress.Device\n\n	var resultData model.ResultDataType",
+    "	addressSource := *requestHeader.AddressDestination\n	addressSource.Device = senderAddress.Device\n	if requestHeader.MsgCounter == nil {\n		requestHeader.MsgCounter = util.Ptr(model.MsgCounterType(0))\n	}\n\n	var resultData model.ResultDataType"),
+ "n-reply-without-reference-rejected": ("C01", "spine/feature_local.go",
+    "	cmdData, _ := message.Cmd.Data()\n	featureRemote := message.FeatureRemote\n",
+    "	cmdData, _ := message.Cmd.Data()\n	featureRemote := message.FeatureRemote\n	if message.RequestHeader.MsgCounterReference == nil {\n		return model.NewErrorTypeFromString(\"reference required\")\n	}\n"),
+ "n-result-source-device-echoed": ("C01", "spine/send.go",
+    "	addressSource := *requestHeader.AddressDestination\n	addressSource.Device = senderAddress.Device\n\n	var resultData model.ResultDataType",
+    "	addressSource := *requestHeader.AddressDestination\n\n	var resultData model.ResultDataType"),
+ "n-notification-carries-no-data": ("C03", "spine/function_data_cmd.go",
+    "func (r *FunctionDataCmd[T]) NotifyOrWriteCmdType(deleteSelector, partialSelector any, partialWithoutSelector bool, deleteElements any) model.CmdType {\n	data := r.DataCopy()",
+    "func (r *FunctionDataCmd[T]) NotifyOrWriteCmdType(deleteSelector, partialSelector any, partialWithoutSelector bool, deleteElements any) model.CmdType {\n	var data *T"),
+ "n-setdata-does-not-notify": ("C01", "spine/feature_local.go",
+    "	if fctData != nil && err == nil {\n		r.Device().NotifySubscribers(r.Address(), fctData.NotifyOrWriteCmdType(nil, nil, false, nil))\n	}\n}\n\nfunc (r *FeatureLocal) UpdateData(",
+    "	_ = fctData\n}\n\nfunc (r *FeatureLocal) UpdateData("),
+ "n-binding-data-lists-all-peers": ("C01", "spine/nodemanagement_binding.go",
+    "	remoteDeviceBindingEntries := r.Device().BindingManager().Bindings(message.FeatureRemote.Device())",
+    "	var remoteDeviceBindingEntries []*api.BindingEntry\n	for _, rd := range r.Device().RemoteDevices() {\n		remoteDeviceBindingEntries = append(remoteDeviceBindingEntries, r.Device().BindingManager().Bindings(rd)...)\n	}"),
+ "n-rejected-write-stores-value": ("C03", "spine/device_local.go",
+    "			err := model.NewErrorTypeFromString(\"write denied due to missing binding\")\n",
+    "			_, _ = localFeature.(*FeatureLocal).updateData(false, *cmdData.Function, cmdData.Value, nil, nil)\n			err := model.NewErrorTypeFromString(\"write denied due to missing binding\")\n"),
  "c03-entity-removal-keeps-bindings": ("C03", "spine/nodemanagement_detaileddiscovery.go",
     "				bindingMgr.RemoveBindingsForEntity(removedEntity)", "				_ = bindingMgr"),
 }
